@@ -11,6 +11,7 @@ CONSTANTS
   FwdHonoursTerm = FALSE
   InitViaQueue = FALSE
   ClearCache = FALSE
+  DrainKeepsTerm = FALSE
   MonitorOnly = TRUE
 CONSTRAINT Progress
 POSTCONDITION Accepted
